@@ -298,6 +298,7 @@ type checker struct {
 	effects   map[string]*effect
 	kfPopen   bool
 	kfFileArg bool
+	kfUnpack  bool
 	runs      int
 	nsamp     int
 }
@@ -554,8 +555,18 @@ func (ck *checker) isKF(c c08Case) string {
 		if ck.kfFileArg && fileArgNonFile(k) {
 			return "C08-file-arg-nonfile-userdata-panic"
 		}
+		if ck.kfUnpack && unpackSFormat(k) {
+			return "C08-unpack-s-length-panic"
+		}
 	}
 	return ""
+}
+
+// recogniser of C08-unpack-s-length-panic: string.unpack whose format string
+// starts with the option 's' (a string preceded by its length, which is then
+// read from the data argument).
+func unpackSFormat(k c08Call) bool {
+	return k.Fn == "string.unpack" && strings.HasPrefix(firstArg(k.Args), `"s`)
 }
 
 // recogniser of C08-file-arg-nonfile-userdata-panic: a function of the io
@@ -893,6 +904,11 @@ func TestC08(t *testing.T) {
 		return ck.judge(c, ck.run(c)).msg != ""
 	})
 
+	ck.kfUnpack = CheckKnown(rec, "C08-unpack-s-length-panic", func() bool {
+		c := single(ck.byName["string.unpack"], 0, `"s", S .. "/exist.txt"`, "pcall")
+		return ck.judge(c, ck.run(c)).msg != ""
+	})
+
 	nviol := 0
 	report := func(kind string, c c08Case, msg string) {
 		if msg == "" {
@@ -1079,6 +1095,10 @@ func TestC08(t *testing.T) {
 			}
 			args = first + rest
 		}
+		if ck.kfUnpack && unpackSFormat(c08Call{Fn: f.Name, Args: args}) {
+			// construction around the open finding: a format that is not a counted string
+			args = `"z"` + args[len(firstArg(args)):]
+		}
 		if ck.kfFileArg && fileArgNonFile(c08Call{Fn: f.Name, Args: args}) {
 			// construction around the open finding: the granted handle instead of the context object
 			args = "H" + args[len("CTX"):]
@@ -1106,7 +1126,7 @@ func TestC08(t *testing.T) {
 			seqIO = append(seqIO, f)
 		}
 	}
-	RunRapid(rec, "C08/random-single", rec.Pick(800, 12000), 0, func(t *rapid.T) {
+	RunRapid(rec, "C08/random-single", rec.Pick(800, 5000), 0, func(t *rapid.T) {
 		flags := rapid.IntRange(0, 15).Draw(t, "flags")
 		f := genFn(t, ioFns, callable, flags)
 		c := single(f, flags, safeArgs(t, f), rapid.SampledFrom(allSpellings).Draw(t, "spelling"))
@@ -1114,8 +1134,13 @@ func TestC08(t *testing.T) {
 			FailCase(t, kind, c, "%s", msg)
 		}
 	})
-	seqSpells := allSpellings[1:] // not "direct": a raising direct call ends the body
-	RunRapid(rec, "C08/random-sequence", rec.Pick(300, 6000), 1, func(t *rapid.T) {
+	var seqSpells []string // not "direct": a raising direct call ends the body
+	for _, sp := range allSpellings {
+		if sp != "direct" {
+			seqSpells = append(seqSpells, sp)
+		}
+	}
+	RunRapid(rec, "C08/random-sequence", rec.Pick(300, 2500), 1, func(t *rapid.T) {
 		flags := rapid.IntRange(1, 15).Draw(t, "flags")
 		n := rapid.IntRange(2, 5).Draw(t, "ncalls")
 		c := c08Case{Flags: flags}
